@@ -139,7 +139,8 @@ def class_table(chk, dom):
 PARSE_TEXTS = [">=2,<1", ">1,<1", ">=1,<=1", "==1.0,!=1.0", "!=1.0,!=1.0", "<1||>=1", "<=1||>=1", "<1||>1", ">=1,<2||>=2,<3", ">=1,<2||>2,<3",
                "<1||<2", ">=3||>=1,<2", "==1.*||==2.*", "!=1.*,!=2.*", "~=1.4,!=1.5.*", "<empty>||<empty>", "||", ">=1||<empty>", "==1.0||==1.0.0",
                ">=1.0,>=1.0.0", ">=1,<2,>=1.5", "<2||>=1.5,<3||>=2.5", ">1||>=1", "<=1||<1", "!=1||==1", "==1.5||!=1.5", ">=1,<2||>=2", "<3,>=1||<1",
-               "~=1.4||~=1.5", "==1.4.*||==1.5.*||==1.6.*", ">=1!0||<1!0", "<1.0a1||>=1.0a1"]
+               "~=1.4||~=1.5", "==1.4.*||==1.5.*||==1.6.*", ">=1!0||<1!0", "<1.0a1||>=1.0a1",
+               ">=2,<1,!=1.5", "==1.0,==2.0,!=1.0.*", "<1,>=2,~=3.1", ">=1,<=1,!=1", "<1||>=2,<3||>=3", "<=1||>=2,<3||>=4", "<1||>1,<2||>2,<3||>3"]
 PARSE_CANDS = ["0.5", "1", "1.0.1", "1.4", "1.4.5", "1.5", "1.5.3", "1.6", "1.9", "2", "2.5", "2.7", "3", "4", "1!0", "1!1"]
 
 
@@ -223,6 +224,11 @@ def parsed_results(chk):
 
 
 def run(chk):
+    from ..specalg import with_fallback
+    with_fallback(chk, _run)
+
+
+def _run(chk):
     K = 3 if chk.tier == "quick" else 4
     src = str(chk.src)
     chk.explanation = (
